@@ -239,8 +239,10 @@ func (fr *Frame) specEnvEntry(heap map[string]*Term) *SpecEnv {
 // specEnv at a node inside the body: source-level variable names resolve to SSA values.
 func (fr *Frame) specEnv(n *vnode, heap map[string]*Term) *SpecEnv {
 	entry := fr.specEnvEntry(fr.entryHeap)
+	curHeap := heap
 	var lookup func(f *Frame, s string) *SV
 	lookup = func(f *Frame, s string) *SV {
+		heap := curHeap
 		if f.extraNames != nil {
 			if v, ok := f.extraNames[s]; ok {
 				return &SV{T: v.T, Ty: v.Ty}
@@ -274,7 +276,20 @@ func (fr *Frame) specEnv(n *vnode, heap map[string]*Term) *SpecEnv {
 		cands := f.names[s]
 		// prefer a phi of the current block, then unique dominating value
 		var pick ssa.Value
-		if f == fr {
+		for _, c := range cands {
+			// a variable captured by reference is its cell: the name reads the cell's content in the
+			// heap of the environment (SSA temporaries loaded from / stored to it are not the variable)
+			if fv, ok := c.(*ssa.FreeVar); ok {
+				if pt, ok := fv.Type().Underlying().(*types.Pointer); ok {
+					switch pt.Elem().Underlying().(type) {
+					case *types.Struct, *types.Array:
+					default:
+						pick = fv
+					}
+				}
+			}
+		}
+		if f == fr && pick == nil {
 			for _, c := range cands {
 				if phi, ok := c.(*ssa.Phi); ok && phi.Block() == n.b && phi.Comment == s {
 					pick = phi
@@ -363,17 +378,24 @@ func (fr *Frame) specEnv(n *vnode, heap map[string]*Term) *SpecEnv {
 		return &SV{T: v.T, Ty: ty}
 	}
 	env := &SpecEnv{x: fr.x, heap: heap, bound: map[string]*SV{}, pkg: entry.pkg, old: entry}
-	env.names = func(s string) *SV {
-		for f := fr; f != nil; f = f.parent {
-			if v := lookup(f, s); v != nil {
-				return v
+	mk := func(h map[string]*Term) func(s string) *SV {
+		return func(s string) *SV {
+			saved := curHeap
+			curHeap = h
+			defer func() { curHeap = saved }()
+			for f := fr; f != nil; f = f.parent {
+				if v := lookup(f, s); v != nil {
+					return v
+				}
+				if s == "this" && f.fn.Signature.Recv() != nil {
+					return &SV{T: f.params[0].T, Ty: f.fn.Params[0].Type()}
+				}
 			}
-			if s == "this" && f.fn.Signature.Recv() != nil {
-				return &SV{T: f.params[0].T, Ty: f.fn.Params[0].Type()}
-			}
+			return nil
 		}
-		return nil
 	}
+	env.names = mk(heap)
+	env.rebind = mk
 	return env
 }
 
@@ -524,17 +546,22 @@ func (e *Engine) verifyCase(fn *ssa.Function, con *Contract, choice []splitChoic
 		post := fr.specEnvEntry(g.heap)
 		post.old = pre
 		base := post.names
-		post.names = func(s string) *SV {
-			for i, n := range rn {
-				if n == s && i < len(results) {
-					return &SV{T: results[i].T, Ty: fn.Signature.Results().At(i).Type()}
+		withResults := func(base func(string) *SV) func(string) *SV {
+			return func(s string) *SV {
+				for i, n := range rn {
+					if n == s && i < len(results) {
+						return &SV{T: results[i].T, Ty: fn.Signature.Results().At(i).Type()}
+					}
 				}
+				if s == "result" && len(results) == 1 {
+					return &SV{T: results[0].T, Ty: fn.Signature.Results().At(0).Type()}
+				}
+				return base(s)
 			}
-			if s == "result" && len(results) == 1 {
-				return &SV{T: results[0].T, Ty: fn.Signature.Results().At(0).Type()}
-			}
-			return base(s)
 		}
+		post.names = withResults(base)
+		// old(v) of a variable captured by reference: its content in the pre-state heap
+		post.rebind = func(h map[string]*Term) func(string) *SV { return withResults(fr.specEnvEntry(h).names) }
 		for i, d := range con.Defines {
 			// ghost definition of an abstract view on the freshly allocated result: a conservative extension,
 			// admitted only if the result is provably fresh
